@@ -2356,6 +2356,13 @@ def _fn_ast(  # pylint: disable=too-many-locals,too-many-statements
         )
 
 
+def _host_target_ast(form: ISeq, ctx: AnalyzerContext) -> Node:
+    """Analyze the target of a host interop form. The value of the target is needed
+    whatever the position of the interop form itself."""
+    with ctx.expr_pos():
+        return _analyze_form(runtime.nth(form, 1), ctx)
+
+
 def _host_call_ast(form: ISeq, ctx: AnalyzerContext) -> HostCall:
     assert isinstance(form.first, sym.Symbol)
 
@@ -2372,7 +2379,7 @@ def _host_call_ast(form: ISeq, ctx: AnalyzerContext) -> HostCall:
     return HostCall(
         form=form,
         method=method.name[1:],
-        target=_analyze_form(runtime.nth(form, 1), ctx),
+        target=_host_target_ast(form, ctx),
         args=args,
         kwargs=kwargs,
         env=ctx.get_node_env(pos=ctx.syntax_position),
@@ -2411,7 +2418,7 @@ def _host_prop_ast(form: ISeq, ctx: AnalyzerContext) -> HostField:
         return HostField(
             form=form,
             field=field.name,
-            target=_analyze_form(runtime.nth(form, 1), ctx),
+            target=_host_target_ast(form, ctx),
             is_assignable=True,
             env=ctx.get_node_env(pos=ctx.syntax_position),
         )
@@ -2425,7 +2432,7 @@ def _host_prop_ast(form: ISeq, ctx: AnalyzerContext) -> HostField:
         return HostField(
             form=form,
             field=field.name[2:],
-            target=_analyze_form(runtime.nth(form, 1), ctx),
+            target=_host_target_ast(form, ctx),
             is_assignable=True,
             env=ctx.get_node_env(pos=ctx.syntax_position),
         )
@@ -2451,7 +2458,7 @@ def _host_interop_ast(form: ISeq, ctx: AnalyzerContext) -> HostCall | HostField:
             return HostField(
                 form=form,
                 field=maybe_m_or_f.name[1:],
-                target=_analyze_form(runtime.nth(form, 1), ctx),
+                target=_host_target_ast(form, ctx),
                 is_assignable=True,
                 env=ctx.get_node_env(pos=ctx.syntax_position),
             )
@@ -2460,7 +2467,7 @@ def _host_interop_ast(form: ISeq, ctx: AnalyzerContext) -> HostCall | HostField:
             return HostCall(
                 form=form,
                 method=maybe_m_or_f.name,
-                target=_analyze_form(runtime.nth(form, 1), ctx),
+                target=_host_target_ast(form, ctx),
                 args=args,
                 kwargs=kwargs,
                 env=ctx.get_node_env(pos=ctx.syntax_position),
@@ -2477,7 +2484,7 @@ def _host_interop_ast(form: ISeq, ctx: AnalyzerContext) -> HostCall | HostField:
         return HostCall(
             form=form,
             method=method.name.removeprefix("-"),
-            target=_analyze_form(runtime.nth(form, 1), ctx),
+            target=_host_target_ast(form, ctx),
             args=args,
             kwargs=kwargs,
             env=ctx.get_node_env(pos=ctx.syntax_position),
